@@ -121,13 +121,94 @@ def infer_roles(prog) -> Roles:
 
     def holds_decoders(e):
         return any(any(x is d for x in ast.walk(e)) for d in dec_calls)
+
+    def expand(e, depth=0):
+        """inline single-assignment temporaries (hits = [...]; results = sorted(hits, ...)): new outer nodes, original inner nodes"""
+        if depth > 4:
+            return e
+        if isinstance(e, ast.Name) and isinstance(e.ctx, ast.Load) and len(assigns.get(e.id, [])) == 1:
+            return expand(assigns[e.id][0], depth + 1)
+        if isinstance(e, ast.Call):
+            new = ast.Call(func=e.func, args=[expand(a, depth + 1) for a in e.args],
+                           keywords=[ast.keyword(arg=k.arg, value=k.value) for k in e.keywords])
+            return ast.copy_location(new, e)
+        return e
+    def comp_from_fill(F, C):
+        """`for s in D: C.extend(h for h in s(x) if c)`  /  `for s in D: for h in s(x): [if c:] C.append(h)`  as one comprehension"""
+        if not (isinstance(F.target, ast.Name) and len(F.body) == 1 and not F.orelse):
+            return None
+        outer = ast.comprehension(target=F.target, iter=F.iter, ifs=[], is_async=0)
+        b = F.body[0]
+        if isinstance(b, ast.Expr) and isinstance(b.value, ast.Call) and isinstance(b.value.func, ast.Attribute) and b.value.func.attr == "extend" and \
+                common.is_name(b.value.func.value, C) and len(b.value.args) == 1 and isinstance(b.value.args[0], (ast.GeneratorExp, ast.ListComp)) and \
+                len(b.value.args[0].generators) == 1:
+            g = b.value.args[0]
+            return ast.copy_location(ast.ListComp(elt=g.elt, generators=[outer, g.generators[0]]), F)
+        if isinstance(b, ast.For) and isinstance(b.target, ast.Name) and len(b.body) == 1 and not b.orelse:
+            inner, ifs = b.body[0], []
+            if isinstance(inner, ast.If) and len(inner.body) == 1 and not inner.orelse:
+                ifs, inner = [inner.test], inner.body[0]
+            if isinstance(inner, ast.Expr) and isinstance(inner.value, ast.Call) and isinstance(inner.value.func, ast.Attribute) and \
+                    inner.value.func.attr == "append" and common.is_name(inner.value.func.value, C) and len(inner.value.args) == 1:
+                g1 = ast.comprehension(target=b.target, iter=b.iter, ifs=ifs, is_async=0)
+                return ast.copy_location(ast.ListComp(elt=inner.value.args[0], generators=[outer, g1]), F)
+        return None
+
+    def synth_iter(st):
+        """the loop's iterable as `sorted(<comprehension>, key=...)` when it is built that way in several statements:
+        C = [...] / C = [] + filling loop, then C.sort(key=...) or sorted(C, key=...)"""
+        it = expand(st.iter)
+        if holds_decoders(it) and isinstance(it, ast.Call) and common.is_name(it.func, "sorted"):
+            return it
+        fallback = it if holds_decoders(it) else None
+        r = synth_from_statements(st)
+        return r if r is not None else fallback
+
+    def synth_from_statements(st):
+        base, sort_kw, sort_at = st.iter, None, None
+        if isinstance(base, ast.Call) and common.is_name(base.func, "sorted") and len(base.args) == 1:
+            sort_kw, base = list(base.keywords), base.args[0]
+        if not isinstance(base, ast.Name):
+            return None
+        C = base.id
+        init = comp = None
+        fills, sorts = [], []
+        for i, s_ in enumerate(sn.node.body):
+            if s_ is st:
+                break
+            tgt = val = None
+            if isinstance(s_, ast.Assign) and len(s_.targets) == 1 and isinstance(s_.targets[0], ast.Name):
+                tgt, val = s_.targets[0].id, s_.value
+            elif isinstance(s_, ast.AnnAssign) and isinstance(s_.target, ast.Name) and s_.value is not None:
+                tgt, val = s_.target.id, s_.value
+            mentions = any(isinstance(x, ast.Name) and x.id == C for x in ast.walk(s_))
+            if tgt == C:
+                init, fills, sorts = val, [], []
+            elif isinstance(s_, ast.Expr) and isinstance(s_.value, ast.Call) and isinstance(s_.value.func, ast.Attribute) and \
+                    s_.value.func.attr == "sort" and common.is_name(s_.value.func.value, C) and not s_.value.args:
+                sorts.append((i, s_.value))
+            elif isinstance(s_, ast.For) and mentions:
+                fills.append((i, s_))
+            elif mentions:
+                return None
+        if isinstance(init, (ast.ListComp, ast.GeneratorExp)) and not fills:
+            comp = init
+        elif init is not None and _is_empty_list(init) and len(fills) == 1:
+            comp = comp_from_fill(fills[0][1], C)
+        if comp is None or len(sorts) > 1 or (sorts and sort_kw is not None) or (sorts and fills and sorts[0][0] < fills[0][0]):
+            return None
+        if sorts:
+            sort_kw = list(sorts[0][1].keywords)
+            sort_at = sorts[0][1]
+        if sort_kw is None:
+            return comp
+        call = ast.Call(func=ast.Name(id="sorted", ctx=ast.Load()), args=[comp], keywords=sort_kw)
+        return ast.copy_location(call, sort_at if sort_at is not None else st.iter)
     cands = []
     for st in sn.node.body:
         if isinstance(st, ast.For) and isinstance(st.target, ast.Name):
-            it = st.iter
-            if isinstance(it, ast.Name) and len(assigns.get(it.id, [])) == 1:
-                it = assigns[it.id][0]
-            if holds_decoders(it):
+            it = synth_iter(st)
+            if it is not None and holds_decoders(it):
                 cands.append((st, it))
     need(len(cands) == 1, f"anchor: expected one top-level hit loop over the decoders' results in scan_node, found {len(cands)}")
     R.loop, it = cands[0]
@@ -470,7 +551,8 @@ class FrameAnalysis:
                 self.assumptions.append("pop loop with an empty stack is unreachable when every hit lies inside the scanned value")
                 return out
             a, b = st.clone(), st.clone()
-            c = self.cmp(st, stmt.test)
+            xt = self.xtest(stmt.test)
+            c = self.cmp(st, xt)
             if c is not None:
                 d, op = c
                 if op == "<=":
@@ -478,8 +560,8 @@ class FrameAnalysis:
                     b.facts.append(d - 1)
                 elif op == "==":
                     a.facts += [d, -d]
-            a.conds.append(("+", stmt.test, stmt, c, self.snapshot(st)))
-            b.conds.append(("-", stmt.test, stmt, c, self.snapshot(st)))
+            a.conds.append(("+", xt, stmt, c, self.snapshot(st)))
+            b.conds.append(("-", xt, stmt, c, self.snapshot(st)))
             return self.block(stmt.body, a) + self.block(stmt.orelse, b)
         if isinstance(stmt, ast.Continue):
             self.finals.append(("continue", st))
@@ -801,18 +883,78 @@ class FrameAnalysis:
                     "a self-match guard exists (a hit restating its parent is dropped)", "no such guard")
         self.check_v8_condition()
 
+    def xtest(self, test):
+        """the test with calls of one-expression helper functions (def f(a, b): return <expr>) replaced by their body"""
+        prog, mod, sn = self.prog, self.mod, self.sn
+        cache = self.__dict__.setdefault("_xtest_cache", {})
+        if id(test) in cache:
+            return cache[id(test)]
+
+        def body_of(fi):
+            if fi is None or isinstance(fi.node, ast.Lambda) or fi.cls or fi.node.args.vararg or fi.node.args.kwarg or fi.node.args.kwonlyargs:
+                return None
+            stmts = [x for x in fi.node.body if not (isinstance(x, ast.Expr) and isinstance(x.value, ast.Constant))]
+            if len(stmts) == 1 and isinstance(stmts[0], ast.Return) and stmts[0].value is not None:
+                return stmts[0].value
+            return None
+        repl = {}
+        for n in ast.walk(test):
+            if isinstance(n, ast.Call) and not n.keywords and not any(isinstance(a, ast.Starred) for a in n.args):
+                try:
+                    c = prog.callee(mod, sn, n)
+                except Exception:   # noqa: BLE001
+                    continue
+                fi = c.func if c.kind == "repo" else None
+                b = body_of(fi)
+                if b is not None and len(fi.params) == len(n.args):
+                    repl[id(n)] = (b, dict(zip(fi.params, n.args)))
+        if not repl:
+            cache[id(test)] = test
+            return test
+
+        class Sub(ast.NodeTransformer):
+            def __init__(self, env):
+                self.env = env
+
+            def visit_Name(self, x):
+                if isinstance(x.ctx, ast.Load) and x.id in self.env:
+                    return G._copy(self.env[x.id])
+                return x
+
+        def rebuild(e):
+            if id(e) in repl:
+                b, env = repl[id(e)]
+                env = {k: rebuild(v) for k, v in env.items()}
+                return Sub(env).visit(G._copy(b))
+            if isinstance(e, ast.BoolOp):
+                return ast.BoolOp(op=e.op, values=[rebuild(v) for v in e.values])
+            if isinstance(e, ast.UnaryOp):
+                return ast.UnaryOp(op=e.op, operand=rebuild(e.operand))
+            return e
+        out = rebuild(test)
+        ast.copy_location(out, test)
+        ast.fix_missing_locations(out)
+        cache[id(test)] = out
+        return out
+
     def is_self_match_guard(self, test):
         R = self.R
         has_val = any(isinstance(x, ast.Attribute) and x.attr in ("value", "type") and common.is_name(x.value, R.NODE) for x in ast.walk(test))
         return has_val
 
-    def az(self):
+    def az(self, at=None):
+        """atomizer in role names; `at`: the statement whose test is read - single-assignment temporaries that reach it are inlined"""
         R = self.R
-        return G.Atomizer(rename={R.HIT: "HIT", R.NODE: "NODE"},
+        subst = {}
+        if at is not None:
+            env = common.block_env(R.loop.body, at) or {}
+            roles = {R.HIT, R.NODE, R.OFFSET, R.DEND, R.STACK}
+            subst = {k: v for k, v in env.items() if k not in roles}
+        return G.Atomizer(rename={R.HIT: "HIT", R.NODE: "NODE"}, subst=subst,
                           is_int=lambda e: any(isinstance(x, ast.Attribute) and x.attr in ("start", "end") for x in ast.walk(e)))
 
     def check_self_match(self, test, stmt, fs, snap):
-        az = self.az()
+        az = self.az(stmt)
         got = az.formula(test)
         spec = G.f_and(
             az.formula(ast.parse("HIT.start == 0", mode="eval").body),
@@ -845,8 +987,8 @@ class FrameAnalysis:
             self.report("V8", "decoded-test", False, R.loop, "the decoded/context decision exists", "no branch leads to the recursive scan")
             return
         n, positive = target
-        az = self.az()
-        got = az.formula(n.test)
+        az = self.az(n)
+        got = az.formula(self.xtest(n.test))
         if not positive:
             got = G.f_not(got)
         spec = G.f_or(az.formula(ast.parse("HIT.value.lower() != HIT.original.lower()", mode="eval").body),
